@@ -38,39 +38,51 @@ def run(ctx):
             rsi = float([0.0, 1.0, 5.0, 12.0][(k // 4) % 4])
             pb = 1000.0
         fl = Fluid(T, api, gg, rsi, sal, swi)
-        ps = np.sort(np.concatenate([rng.uniform(15, 2.5 * pb, 5), [pb]]))
-        tpc, ppc = float(rng.uniform(-110, -40)), float(rng.uniform(600, 700))
-        inp = dict(T=T, api=api, gg=gg, Rsi=rsi, salinity=sal, Swi=swi, pressures=[float(x) for x in ps], Tpc=tpc, Ppc=ppc)
-        pairs = [
-            ("water_FVF", fl.water_FVF(ps), [water.b_water_McCain(T, p) for p in ps]),
-            ("water_viscosity", fl.water_viscosity(ps), [water.viscosity_water_McCain(T, p, sal) for p in ps]),
-            ("oil_FVF", fl.oil_FVF(ps), [oil.b_o_Standing(T, float(p), api, gg, rsi) for p in ps]),
-            ("oil_viscosity", fl.oil_viscosity(ps), [oil.viscosity_beggs_robinson(T, float(p), api, gg, rsi) for p in ps]),
-            ("pressure_bubblepoint", [fl.pressure_bubblepoint()], [oil.pressure_bubblepoint_Standing(T, api, gg, rsi)]),
-        ]
-        if dead:
-            pairs = [pr_ for pr_ in pairs if not pr_[0].startswith("oil_")]   # the oil correlations need a positive bubble point
-        tr = (T + 459.67) / (tpc + 459.67)
-        if 1.05 <= tr <= 3:
-            pg = ps[ps / ppc <= 30]
-            pairs += [("gas_FVF", fl.gas_FVF(pg, tpc, ppc), [gas.b_factor_DAK(T, float(p), tpc, ppc) for p in pg]),
-                      ("gas_viscosity", fl.gas_viscosity(pg, tpc, ppc), [gas.viscosity_Sutton(T, float(p), tpc, ppc, gg) for p in pg])]
-        for name, got, want in pairs:
-            ev += 1
-            if not close(got, want):
-                bad(f"Fluid.{name} differs from the stand-alone correlation evaluated with the object's attributes", inp,
-                    dict(got=[float(x) for x in np.ravel(got)][:4], want=[float(x) for x in np.ravel(want)][:4]))
+        settings = [(T, api, gg, rsi, sal, swi, pb, dead, "as constructed")]
+        if k % 3 == 1:
+            # the same object with its public fields re-assigned after it has been used (a sensitivity loop over one Fluid): every
+            # method must follow the CURRENT attributes
+            T2, api2, gg2, rsi2, pb2 = dom.oil_params(rng)
+            settings.append((T2, api2, gg2, rsi2, float(rng.uniform(0.5, 25)), float(rng.uniform(0.05, 0.4)), pb2, False, "fields re-assigned after use"))
+        for T, api, gg, rsi, sal, swi, pb, dead, how in settings:
+            if how != "as constructed":
+                fl.temperature, fl.api_gravity, fl.gas_specific_gravity, fl.solution_gor_initial, fl.salinity, fl.water_saturation_initial = T, api, gg, rsi, sal, swi
+            ps = np.sort(np.concatenate([rng.uniform(15, 2.5 * pb, 5), [pb]]))
+            tpc, ppc = float(rng.uniform(-110, -40)), float(rng.uniform(600, 700))
+            inp = dict(T=T, api=api, gg=gg, Rsi=rsi, salinity=sal, Swi=swi, pressures=[float(x) for x in ps], Tpc=tpc, Ppc=ppc, object=how)
+            pairs = [
+                ("water_FVF", fl.water_FVF(ps), [water.b_water_McCain(T, p) for p in ps]),
+                ("water_viscosity", fl.water_viscosity(ps), [water.viscosity_water_McCain(T, p, sal) for p in ps]),
+                ("oil_FVF", fl.oil_FVF(ps), [oil.b_o_Standing(T, float(p), api, gg, rsi) for p in ps]),
+                ("oil_viscosity", fl.oil_viscosity(ps), [oil.viscosity_beggs_robinson(T, float(p), api, gg, rsi) for p in ps]),
+                ("pressure_bubblepoint", [fl.pressure_bubblepoint()], [oil.pressure_bubblepoint_Standing(T, api, gg, rsi)]),
+            ]
+            if dead:
+                pairs = [pr_ for pr_ in pairs if not pr_[0].startswith("oil_")]   # the oil correlations need a positive bubble point
+            tr = (T + 459.67) / (tpc + 459.67)
+            if 1.05 <= tr <= 3:
+                pg = ps[ps / ppc <= 30]
+                pairs += [("gas_FVF", fl.gas_FVF(pg, tpc, ppc), [gas.b_factor_DAK(T, float(p), tpc, ppc) for p in pg]),
+                          ("gas_viscosity", fl.gas_viscosity(pg, tpc, ppc), [gas.viscosity_Sutton(T, float(p), tpc, ppc, gg) for p in pg])]
+            for name, got, want in pairs:
+                ev += 1
+                if not close(got, want):
+                    bad(f"Fluid.{name} differs from the stand-alone correlation evaluated with the object's attributes" + ("" if how == "as constructed" else " (attributes re-assigned after the object was used)"), inp,
+                        dict(got=[float(x) for x in np.ravel(got)][:4], want=[float(x) for x in np.ravel(want)][:4]))
     # ---------------- table builder
     ntab = 3 if ctx.quick else 18
     for k in range(ntab):
         g = dom.gas_params(rng)
+        while abs(g["n2"] - g["co2"]) < 0.01 or abs(g["n2"] - g["h2s"]) < 0.01:    # a composition whose components cannot be confused unnoticed
+            g = dom.gas_params(rng)
         pmax = float(rng.choice([95.0, 100.0, 305.0, 1000.0])) if ctx.quick else float(rng.choice([95.0, 100.0, 1000.0, 3333.0, 14000.0]))
         vals = {"N2": g["n2"], "H2S": g["h2s"], "CO2": g["co2"], "Gas Specific Gravity": g["sg"],
                 "Reservoir Temperature (deg F)": g["T"]}
         with warnings.catch_warnings():
             warnings.simplefilter("ignore")
-            tb = build_pvt_gas(vals, g["dry"], pmax)
-        inp = dict(gas_values=vals, dryness=g["dry"], maximum_pressure=pmax)
+            vals_arg, vals_how = dom.gas_values_form(vals, k)    # what the keys say decides, not the order they were inserted in
+            tb = build_pvt_gas(vals_arg, g["dry"], pmax)
+        inp = dict(gas_values=vals, gas_values_given_as=vals_how, dryness=g["dry"], maximum_pressure=pmax)
         P = np.asarray(tb["pressure"], float)
         ev += 1
         want_P = np.arange(10.0, pmax, 10.0)
